@@ -254,7 +254,7 @@ def boundary_seek(gm, rng):
     delta = tgt - L + rng.choice([-2, -1, 0, 0, 1, 2])
     n = len(e.rd[0]) + delta
     if 0 <= n <= 9000:
-        e.rd = (bytes(rng.randrange(256) for _ in range(n)),)
+        e.rd = (rng.randbytes(n),)
     return gm
 
 
